@@ -78,12 +78,22 @@ class Menu:
             (55.7, None, "float_frac"),
             (True, None, "bool"),
             (None, None, "none"),
+            # another decimal spelling of tag 1: either refused or treated exactly as tag 1, never a second key
+            ("01", "1", "zero_padded"),
+            # strings int() parses but that are not decimal strings (ASCII digits only): refused
+            (" 1", None, "lax_space_before"),
+            ("+1", None, "lax_plus"),
+            ("1 ", None, "lax_space_after"),
+            ("1_0", None, "lax_underscore"),
+            ("\u0661", None, "lax_unicode_digit"),
         ]
         self.NONSTR = (9, 10, 11, 12)
+        self.EITHER = (13,)
+        self.LAX = (14, 15, 16, 17, 18)
         self.CANON = ["1", "55", "78", str(CUSTOM)]
         self.BASE_TAG = {}  # tag index -> index of the simplest spelling of the same class
         for i, (_s, c, _k) in enumerate(self.TAGS):
-            self.BASE_TAG[i] = self.CANON.index(c) if c is not None else (9 if i in self.NONSTR else 6)
+            self.BASE_TAG[i] = self.CANON.index(c) if c is not None else (9 if i in self.NONSTR else (14 if i in self.LAX else 6))
         SEP = f"{A}|55={A}"  # a value that contains the printed-form separators
         self.SEP = SEP
         # (raw value, expected string form, kind)
@@ -130,8 +140,8 @@ class Menu:
         index; refused spellings get the variants that can tell them apart."""
         ops = []
         nt = len(self.TAGS)
-        bad = [i for i in range(nt) if self.TAGS[i][1] is None and i not in self.NONSTR]
-        good = [i for i in range(nt) if self.TAGS[i][1] is not None]
+        bad = [i for i in range(nt) if self.TAGS[i][1] is None and i not in self.NONSTR and i not in self.LAX]
+        good = [i for i in range(nt) if self.TAGS[i][1] is not None and i not in self.EITHER]
         for rep in (0, 1):
             for ti in good:
                 for vi in range(len(self.VALUES)):
@@ -175,6 +185,9 @@ class Menu:
             ops.append(("set", ti, 0, 0))
             ops.append(("add_group", ti, 0, 0, -1))
             ops.append(("set_group", ti, 1))
+        # other decimal / lax spellings of tag 1
+        for ti in self.EITHER + self.LAX:
+            ops.append(("set", ti, 0, 0))
         # negative indexes below -1 (list.insert semantics; only -1 means append)
         for ti in good:
             if self.TAGS[ti][2] == "int":
@@ -494,6 +507,12 @@ def check_mut(M, cls, path, st, op, shared=None):
         got = snapshot(obj)
         if got != nst and fail is None:
             fail = "wrong_state" if expect == "ok" else "state_changed"
+    if fail is not None and op[1] in M.EITHER and isinstance(exc, FIXMessageError):
+        # "01": refusing it (message error, nothing changed) is as good as treating it as tag 1
+        if got is None:
+            got = snapshot(obj)
+        if got == st:
+            fail, expect, nst = None, "refused_alt", st
     info = {"raised": None if exc is None else f"{ename(exc)}: {exc}"[:160], "state_after": got}
     return fail, expect, nst, info, (shared is not None and got == st)
 
@@ -608,10 +627,19 @@ def observe_tags(M, c, st, o, full=True):
     gvals = [M.A, M.B, "1.5"]
     for ti, (tag, canon, sk) in enumerate(M.TAGS):
         ts = tagsrc(M, ti)
-        if canon is None and ti in M.NONSTR and not full:
+        if ti in M.EITHER or (not full and (ti in M.NONSTR or ti in M.LAX)):
             continue
         if canon is None:
             # refused spellings: a map from integer tags cannot hold them
+            if full:
+                # query: refused with the message error, or answered as "missing" - never another tag's value
+                r = call(c.query, tag)
+                o.n += 1
+                if not (_raises(r, FIXMessageError)
+                        or (r[0] and isinstance(r[1], dict) and all(x is None for x in r[1].values()))):
+                    tgt = "nonstr_tag" if ti in M.NONSTR else ("laxdecimal_tag" if ti in M.LAX else "nonint_str")
+                    o.add("nonint_tag", "query", tgt, "int", None, r, "FIXMessageError (or no value)",
+                          f"c.query({ts})")
             r = call(c.get, tag)
             o.n += 5
             if r[0]:
@@ -708,6 +736,13 @@ def observe_tags(M, c, st, o, full=True):
                 if not _raises(r, FIXMessageError):
                     o.add("group_errors", "get_group_by_index", "group_out_of_range", sk, canon, r,
                           "a FIXMessageError (TagNotFoundError)", src)
+        if tk == "group" and sk == "int":
+            # an index below -len is out of range as well (negative indexes within range are unconstrained)
+            r = call(c.get_group_by_index, tag, -(n + 1))
+            o.n += 1
+            if not _raises(r, FIXMessageError):
+                o.add("group_errors", "get_group_by_index", "group_below_range", sk, canon, r,
+                      "a FIXMessageError (TagNotFoundError)", f"c.get_group_by_index({ts}, {-(n + 1)})")
         # ---- get_group_by_tag --------------------------------------------------
         if tk != "group":
             combos = [(gtags[0], gvals[0])]
@@ -882,12 +917,12 @@ def observe_whole(M, cls, path, c, st, o, full=True):
         for ti, (tag, canon, sk) in enumerate(M.TAGS):
             if canon is not None or tag is None:
                 continue
-            tgt = "nonstr_tag" if ti in M.NONSTR else "nonint"
+            tgt = "nonstr_tag" if ti in M.NONSTR else ("laxdecimal_tag" if ti in M.LAX else "nonint")
             for d in ({tag: M.A}, {tag: [{1: M.A}]}):
                 r = call(FIXContainer, d)
                 o.n += 1
                 if not _raises(r, FIXMessageError):
-                    o.add("nonint_tag", "constructor", tgt, "int" if ti in M.NONSTR else sk, None, r,
+                    o.add("nonint_tag", "constructor", tgt, "int" if tgt != "nonint" else sk, None, r,
                           "FIXMessageError", f"FIXContainer({d!r})")
     # ---- query() ---------------------------------------------------------------
     r = call(c.query)
@@ -954,6 +989,30 @@ def observe_whole(M, cls, path, c, st, o, full=True):
             f = eq_fail(e, exp, groupish=g or has_list(d))
             if f:
                 o.add("eq_dict", "eq", name, "int", None, f, repr(exp), f"{src}  with d = {d!r}")
+    # ---- get_group_by_tag when an EARLIER item holds the inner tag as a nested group -------------
+    if full:
+        for k, v in st:
+            if isinstance(v, str):
+                continue
+            p = rebuild(M, cls, path)
+            nested = {55: [{1: M.A}]}
+            if call(p.add_group, int(k), nested, 0)[0]:
+                o.n += 1
+                later = [it for it in v if isinstance(dict(it).get("55"), str)]
+                src0 = f"p.add_group({k}, {nested!r}, 0); "
+                if later:
+                    gv = dict(later[0])["55"]
+                    r = call(p.get_group_by_tag, int(k), 55, gv)
+                    o.n += 1
+                    if not (r[0] and snap_item(r[1]) in later):
+                        o.add("group_order", "get_group_by_tag", "earlier_item_holds_gtag_as_group", "int", k, r,
+                              repr(later[0]), src0 + f"p.get_group_by_tag({k}, 55, {gv!r})")
+                r = call(p.get_group_by_tag, int(k), 55, "no-such-value")
+                o.n += 1
+                if not _raises(r, TagNotFoundError):
+                    o.add("group_errors", "get_group_by_tag", "no_match_and_gtag_is_group_in_an_item", "int", k, r,
+                          "TagNotFoundError", src0 + f"p.get_group_by_tag({k}, 55, 'no-such-value')")
+            break  # first group tag only
     # container that carries all four framing tags
     c2 = rebuild(M, cls, path)
     ok = True
@@ -1118,6 +1177,10 @@ def mut_violation(M, cls, path, st, op, fail, expect, info, acc):
     tk = kind_of(st, M.TAGS[op[1]][1])
     if op[1] in M.NONSTR:
         tk = "nonstr_tag"
+    elif op[1] in M.LAX:
+        tk = "laxdecimal_tag"
+    elif op[1] in M.EITHER:
+        tk = "alt_decimal_of_" + ("absent" if tk == "absent" else "present")
     sig = f"{clause}|{opname(op)}:{tk}:{delta}:{mfail}"
     x = acc.get(sig)
     if x is not None:
@@ -1426,7 +1489,7 @@ def run(ctx):
     ctx.bounds = {
         "depth_FIXMessage": depth, "depth_FIXContainer": 3, "mutator_variants_per_state": len(M.OPS),
         "tag_spellings": [repr(t[0]) for t in M.TAGS], "values": [repr(v[0]) for v in M.VALUES],
-        "group_items": [M.item_src(i, 0) for i in range(len(M.ITEMS))], "nesting": 1,
+        "group_items": [M.item_src(i, 0) for i in range(len(M.ITEMS))], "nesting": "1 (2 in the get_group_by_tag probe)",
         "pair_matrix_depth": 2,
     }
     (lv1, lv2), shallow = explore(ctx, M, [("FIXMessage", depth), ("FIXContainer", 3)], 2,
